@@ -229,8 +229,19 @@ def gen_lookup(rng: random.Random, sid: str, thorough: bool = False) -> dict:
         if c < 0:
             return
         evs.append((c, {'op': 'recv', 'items': [{'id': i, 'ttl': ttl, 'sp': rng.randint(0, 2)}]}))
-    for i in [srv, txt] + addr_ids + ([other_addr] if rng.random() < 0.4 else []):
-        pre(i)
+    if rng.random() < 0.08:
+        # the service was retargeted to the other host and back shortly before the lookup (cache-flush bits set): the cache holds
+        # the live SRV and, added after it, the other one, expired a second ago and not purged yet
+        t0 = 123456
+        other = 2 if srv == 1 else 1
+        evs.append((t0 - 7000, {'op': 'recv', 'items': [{'id': srv, 'ttl': 120, 'fl': True, 'sp': 0}]}))
+        evs.append((t0 - 5000, {'op': 'recv', 'items': [{'id': other, 'ttl': 120, 'fl': True, 'sp': 0}]}))
+        evs.append((t0 - rng.choice([2000, 1500, 1001]), {'op': 'recv', 'items': [{'id': srv, 'ttl': 120, 'fl': True, 'sp': rng.randint(0, 2)}]}))
+        for i in [txt] + addr_ids:
+            pre(i)
+    else:
+        for i in [srv, txt] + addr_ids + ([other_addr] if rng.random() < 0.4 else []):
+            pre(i)
     evs.append((t0, {'op': 'lookup', 'timeout': timeout, 'forced': rng.choice(['none', 'none', 'none', 'QU', 'QM']),
                      'sp': rng.randint(0, 2), 'via': rng.choice(['info', 'info', 'aiozc', 'zc'])}))
     # records arriving while the lookup waits
